@@ -112,20 +112,26 @@ DEFUN int32_t
 strtoi32(const char *str, const char **ep)
 {
 	const char *sp = str;
+	const char *dp;
 	bool negp = false;
-	int32_t res = INT32_MIN;
+	int32_t res = 0;
 
 	if (*str == '-') {
 		negp = true;
 		sp++;
 	}
-	while (res < INT32_MAX / 10 && (unsigned char)(*sp ^ '0') < 10U) {
-		res *= 10, res += (unsigned char)(*sp++ ^ '0');
+	/* no digits at all is reported as INT32_MIN with EP on STR */
+	for (dp = sp;
+	     res < INT32_MAX / 10 && (unsigned char)(*sp ^ '0') < 10U; sp++) {
+		res *= 10, res += (unsigned char)(*sp ^ '0');
 	}
-	if (negp) {
+	if (UNLIKELY(sp == dp)) {
+		*ep = (char*)str;
+		return INT32_MIN;
+	} else if (negp) {
 		res = -res;
 	}
-	*ep = res > INT32_MIN ? (char*)sp : (char*)str;
+	*ep = (char*)sp;
 	return res;
 }
 
@@ -134,20 +140,26 @@ DEFUN int64_t
 strtoi64(const char *str, const char **ep)
 {
 	const char *sp = str;
+	const char *dp;
 	bool negp = false;
-	int64_t res = INT64_MIN;
+	int64_t res = 0;
 
 	if (*str == '-') {
 		negp = true;
 		sp++;
 	}
-	while (res < INT64_MAX / 10 && (unsigned char)(*sp ^ '0') < 10U) {
-		res *= 10, res += (unsigned char)(*sp++ ^ '0');
+	/* no digits at all is reported as INT64_MIN with EP on STR */
+	for (dp = sp;
+	     res < INT64_MAX / 10 && (unsigned char)(*sp ^ '0') < 10U; sp++) {
+		res *= 10, res += (unsigned char)(*sp ^ '0');
 	}
-	if (negp) {
+	if (UNLIKELY(sp == dp)) {
+		*ep = (char*)str;
+		return INT64_MIN;
+	} else if (negp) {
 		res = -res;
 	}
-	*ep = res > INT64_MIN ? (char*)sp : (char*)str;
+	*ep = (char*)sp;
 	return res;
 }
 
